@@ -246,7 +246,15 @@ static int json_patch_apply_move_copy(struct json_object **res,
 		 *   location; i.e., a location cannot be moved into one of its children.
 		 */
 		if (from_s_len == strlen(path))
+		{
+			/* Same location: nothing to do, but it still has to exist */
+			if (json_pointer_get(*res, from_s, NULL))
+			{
+				_set_err_from_ptrget(errno, "from");
+				return -1;
+			}
 			return 0;
+		}
 		_set_err(EINVAL, "Invalid attempt to move parent under a child");
 		return -1;
 	}
